@@ -131,3 +131,45 @@ def validate(chk, progs, name="sem", batches=None, timeout=1500, invariants=("Se
                                                                     json.dumps(culprit and culprit["files"])[:1500]),
                           dict(rp, event_index=at, event=bad))
     return accepted, events
+
+
+def refine(chk, th, progs, name="refine", limit=4000, timeout=1500):
+    """Model leg (TheoRefine): the ideal machine on the real compiler's bytecode simulates TheoSem. Returns number of programs."""
+    jobs = [{"i": i, "files": p["files"], "main": p["main"]} for i, p in enumerate(progs)]
+    got = {}
+    for recs, rc, err, part in parallel_th(th, ["compile", "--prog"], jobs, timeout=900):
+        for r in recs:
+            if "ok" in r:
+                got[r["i"]] = r
+    sel = [(p, got[i]["prog"]) for i, p in enumerate(progs) if i in got and got[i]["ok"]]
+    if not sel:
+        return 0
+    nb = min(NCPU, max(1, len(sel) // 20))
+    d = rundir(chk.pid, name + "_in")
+    from concurrent.futures import ThreadPoolExecutor
+
+    def one(b):
+        part = sel[b::nb]
+        ap = os.path.join(d, "asts%d.json" % b)
+        pp = os.path.join(d, "progs%d.json" % b)
+        with open(ap, "w") as f:
+            json.dump([p["ast"] for p, _ in part], f)
+        with open(pp, "w") as f:
+            json.dump([pr for _, pr in part], f)
+        cfg = "SPECIFICATION RSpec\nINVARIANT RefineOK SemTypeOK DepthBound\nCONSTRAINT Bounded\nCHECK_DEADLOCK FALSE\n"
+        return tlc("TheoRefine", cfg, chk.pid, "%s%d" % (name, b), env={"ASTS": ap, "PROGS": pp, "REFLIMIT": limit}, workers=2, timeout=timeout, xmx="6g"), part
+    with ThreadPoolExecutor(max_workers=nb) as ex:
+        results = list(ex.map(one, range(nb)))
+    for res, part in results:
+        if res.timed_out or res.error:
+            raise Broken("TheoRefine: %s" % (res.error or "timeout"))
+        chk.add("refine_states", res.distinct)
+        if res.violated:
+            m = re.search(r"/\\ a = (\d+)", res.out)
+            culprit = part[int(m.group(1)) - 1][0] if m else None
+            chk.violation("refine:%s:seed%s" % (res.violated, culprit and culprit["seed"]),
+                          "TheoRefine: %s violated - the ideal machine running the real compiler's bytecode does not simulate the source "
+                          "semantics (this blames the compiler, the real VM is not involved); program seed %s, sources %s\n%s"
+                          % (res.violated, culprit and culprit["seed"], json.dumps(culprit and culprit["files"])[:1200], tlc_counterexample(res, 1500)),
+                          {"files": culprit and culprit["files"], "main": culprit and culprit["main"], "violated": res.violated})
+    return len(sel)
